@@ -12,4 +12,6 @@ G ares_server_t *g_fetch_server, *g_random; G ares_server_t g_first, g_rnd, g_re
 G char tok_tmo, tok_conn; G _Bool g_tmo_ok, g_ll_ok;
 /* re-entrancy: closing a connection completes its other queries; their callbacks may cancel the channel, which releases the query being sent */
 G _Bool g_cb_may_cancel, g_query_released; G ares_query_t *g_sending;
+/* event-thread liveness: the sleeping thread learns about a new earliest deadline only through a wake-up */
+G int g_wakeups; G _Bool g_new_is_earliest, g_write_wakes; G char tok_other_tmo;
 #endif
